@@ -598,6 +598,13 @@ fn cli_part(ctx: &Ctx, report: &mut Report) {
   // one piece length above the largest the automatic choice ever makes, with content longer than one such piece
   // (the content is compressible on purpose: replay files hold it in hex)
   cases.push(CliCase { p: 32 << 20, md5: true, shape: "file".into(), files: vec![("content".into(), vec![0u8; (40 << 20) + 5])], noise: vec![], links: false, progress: false, hardlink: false });
+  // piece lengths above a megabyte that are not a whole number of megabytes, content of several pieces read in large reads
+  // (a regular file) and in small ones (a pipe)
+  for (pl, len) in [(1_572_864u64, 4_194_427usize), ((1 << 20) + 1, 3 << 20), (3 << 19, (3 << 20) + 7)] {
+    for shape in ["file", "stdin"] {
+      cases.push(CliCase { p: pl, md5: shape == "file", shape: shape.into(), files: vec![("content".into(), (0..len).map(|i| (i / 4096) as u8).collect())], noise: vec![], links: false, progress: false, hardlink: false });
+    }
+  }
   report.correspondences.push("C01.cli: `imdl torrent create` output = spec (chunks of listed files, lengths, md5)".into());
   let results: Vec<(CliCase, Option<String>)> = cases.into_par_iter().map(|c| { let r = check_cli(ctx, &c); (c, r) }).collect();
   for (i, (c, r)) in results.into_iter().enumerate() {
